@@ -96,6 +96,10 @@ def hermitian (j : Json) : Except String Json := do
                            ("hc", J.ofOp (Model.C02.hcQubit a))])
   | "quad" => .ok (J.obj [("model", Json.bool (Model.C02.isHermitianQuad tol a)),
                           ("hc", J.ofOp (Model.C02.hcQuad a))])
+  | "fermion" => .ok (J.obj [("model", Json.bool (Model.C02.isHermitianFermion tol a)),
+                             ("hc", J.ofOp (Model.C02.hcFermion a))])
+  | "boson" => .ok (J.obj [("model", Json.bool (Model.C02.isHermitianBoson tol a)),
+                           ("hc", J.ofOp (Model.C02.hcBoson a))])
   | s => .error s!"c02.hermitian: class {s} not modelled"
 
 def handle (op : String) (j : Json) : Option (Except String Json) :=
